@@ -12,7 +12,14 @@ Level(status) ==
 
 \* what the handler did -> the status the recorder holds when it returns
 \*   <<"status", c>> explicit final status; <<"body">> body without header; <<"nothing">>; <<"info", c>> only an informational header
-RecordedStatus(did) == IF did[1] = "status" THEN did[2] ELSE 200
+\*   <<"bodythen", c>> body bytes (implicit 200), then a late WriteHeader(c); <<"twice", c1, c2>> two final headers;
+\*   <<"flushthen", c>> a flush (implicit 200), then WriteHeader(c); <<"infotwice", i, c1, c2>> informational, final, final.
+\* The status reported is the first final status forwarded (C14), never one that was ignored.
+RecordedStatus(did) ==
+  CASE did[1] = "status" -> did[2]
+    [] did[1] = "twice" -> did[2]
+    [] did[1] = "infotwice" -> did[3]
+    [] OTHER -> 200
 
 \* resolver: "none" (not configured), "ok" (succeeds), "fail"
 Message(resolver) == CASE resolver = "none" -> "remote" [] resolver = "ok" -> "resolved" [] resolver = "fail" -> "unknown"
